@@ -11,7 +11,7 @@ are loaded afterwards (C08.i).
 Added in round 5: renderd front end and back end use different tile lock ids (C08.j); the record is
 appended before the index entry is set (C08.k, shared C06.c).
 Added in round 6: the race loser loads with the dimensions of the request (C08.l); lock file names
-separate the coordinates (C08.m); the age is read again under the lock (C08.n, shared C13.a)."""
+separate the coordinates (C08.m); the age is read again under the lock (C08.n, shared C13.a; C08.o, shared C13.p)."""
 import ast
 import re
 
@@ -635,3 +635,12 @@ def c08n(ctx):
     a tile a competitor has just refreshed is fetched a second time"""
     from ..engine import share
     share(ctx, 'C13', {'C13.a'})
+
+
+@rule('C08.o', floor=3)
+def c08o(ctx):
+    """shared rule C13.p, re-evaluated for this property: the upstream is asked once for a tile that two requests need -- the request
+    that waited for the tile lock re-checks with the age the *store* reports (the sqlite cache reads it again for a tile that already
+    has its image), not with the age it read before the lock"""
+    from ..engine import share
+    share(ctx, 'C13', {'C13.p'})
